@@ -103,6 +103,9 @@ def check(prop, args):
     if kspec and (only is None or "k" in only):
         import kani_runner
         filters = list(kspec["quick"]) + (list(kspec.get("thorough", [])) if tr == "thorough" else [])
+        if kspec.get("pre") == "gen_c17":
+            # regenerate the harness tables from the committed reference table (idempotent)
+            common.run([sys.executable, os.path.join(common.VERIF, "lib", "gen_c17.py")], timeout=120)
         hto = kspec.get("timeout", {}).get(tr, 300 if tr == "quick" else 1800)
         jobs = kspec.get("jobs", 8)
         results, wall = kani_runner.run_harnesses(prop, filters, hto, jobs,
